@@ -20,7 +20,7 @@ def evaluate(ctx, boxes, cfgs, big=()):
     mout = C.run_driver("driver", ["ndmap " + " ".join(map(str, sz)) for ty, sz in boxes], timeout_per_line=0.2)
     for cfg in cfgs:
         outs, _ = C.run_lines(exes[("numeric", cfg)], [(f"ndmap {len(sz)} " if ty == "u64" else f"ndmapt {ty} {len(sz)} ") + " ".join(map(str, sz))
-                                                       for ty, sz in boxes], timeout_per_line=0.2,
+                                                       for ty, sz in boxes], timeout_per_line=0.03,
                               env={"OMP_NUM_THREADS": "4"} if cfg == "omp" else None)
         prev = None
         for (ty, sz), o, m in zip(boxes, outs, mout):
